@@ -254,12 +254,23 @@ def check_case(case, acc):
         universe = [make(i) for i in range(case["n"])]
         labels = forest.Labels(universe)
         changes = 0
-        for op in case["ops"]:
-            before = forest.snapshot(universe, labels)
+        reads = case.get("reads")
+        for stepno, op in enumerate(case["ops"]):
+            before = forest.snapshot(universe, labels) if reads is None else None
             apply_op(universe, op)
-            if forest.snapshot(universe, labels) != before:
+            if reads is None:
+                if forest.snapshot(universe, labels) != before:
+                    changes += 1
+                check_all(universe, labels, acc, triples=False)
+            else:
+                # sparse reads: only a few nodes are asked between two calls (whatever the library remembers about the
+                # nodes that were NOT asked must not go stale either); everything is asked at the end
                 changes += 1
+                for idx in reads[stepno % len(reads)]:
+                    check_node(universe[idx % case["n"]], labels)
+        if reads is not None:
             check_all(universe, labels, acc, triples=False)
+            acc.tag("histories_with_sparse_reads")
         acc.nontrivial(changes >= 3)
         acc.tag("history_steps", len(case["ops"]))
         acc.tag("history_link_changing_steps", changes)
@@ -272,6 +283,20 @@ def _enum_cases(max_nodes, index, count):
             k += 1
             if k % count == index:
                 yield {"kind": "shape", "shape": forest.to_list(shape), "cls": cls, "via": "parent" if k % 2 else "children"}
+
+
+def _sparse_chain_cases():
+    """A chain; one deep node D is asked; a node X above it is moved or detached; D is asked again (nothing else is ever asked
+    in between) - for every D, every X and three destinations, then everything is asked."""
+    for cls in ("Node", "SlotLM", "DictLM", "AnyNode"):
+        for n in (4, 5, 6, 7):
+            chain = [["parent", i, i - 1] for i in range(1, n)]
+            for d in range(2, n):
+                for x in range(1, d + 1):
+                    for dest in (None, n, n + 1):
+                        ops = chain + [["parent", n + 1, n], ["parent", x, dest], ["parent", x, None], ["parent", x, x - 1]]
+                        reads = [[]] * (len(chain) - 1) + [[d], [d], [d], [d], [d]]
+                        yield {"kind": "history", "n": n + 2, "ops": ops, "cls": cls, "reads": reads}
 
 
 @st.composite
@@ -289,7 +314,10 @@ def random_cases(draw):
         st.tuples(st.just("del"), idx),
     ).map(list)
     ops = draw(st.lists(op, min_size=1, max_size=25))
-    return {"kind": "history", "n": n, "ops": ops, "cls": cls}
+    case = {"kind": "history", "n": n, "ops": ops, "cls": cls}
+    if draw(st.booleans()):
+        case["reads"] = draw(st.lists(st.lists(idx, max_size=2), min_size=1, max_size=6))
+    return case
 
 
 def plan(tier, seed):
@@ -298,12 +326,15 @@ def plan(tier, seed):
     examples = 150 if tier == "quick" else 2500
     tasks = [{"engine": "enum", "max_nodes": max_nodes, "index": i, "count": nshards * 2} for i in range(nshards * 2)]
     tasks += [{"engine": "hyp", "examples": examples, "seed": seed * 1000 + i} for i in range(nshards)]
+    tasks += [{"engine": "sparse-chain"}]
     tasks += [{"engine": "wide", "width": w, "cls": c, "via": v} for w in ((300, 700) if tier == "quick" else (257, 300, 700, 2000)) for c, v in (("Node", "parent"), ("SlotLM", "children"), ("AnyNode", "children"))]
     tasks += [{"engine": "deep", "depth": d, "cls": c} for d in ((700, 1500) if tier == "quick" else (300, 700, 1500, 3000)) for c in ("Node", "SlotLM", "AnyNode")]
     return tasks
 
 
 def run_task(task, acc):
+    if task["engine"] == "sparse-chain":
+        return acc.run_enum(check_case, _sparse_chain_cases())
     if task["engine"] == "wide":
         case = {"kind": "wide", "width": task["width"], "cls": task["cls"], "via": task["via"]}
         exc = acc.evaluate(check_case, case, enumerated=False)
